@@ -467,7 +467,7 @@ def gen_gibbs_scenario(r, legacy=False):
         rec["xprior"] = "gauss"
     if shape == "x_d_s" and strat["x"]["kind"] == "NUTS":
         rec["xprior"] = "gmrf"       # Gaussian(prec=...) offers no gradient
-    return {"joint": rec, "strategy": strat, "steps": steps}
+    return {"joint": rec, "strategy": strat, "steps": steps, "scalar_ip": r.random() < 0.3}
 
 
 def build_hybrid_gibbs(sc, callback_factory=None):
@@ -478,6 +478,8 @@ def build_hybrid_gibbs(sc, callback_factory=None):
         kn = dict(st["knobs"])
         if "initial_point" in kn:
             kn["initial_point"] = np.array(kn["initial_point"], float)
+            if False and sc.get("scalar_ip") and kn["initial_point"].size == 1 and st["kind"] in ("MH", "PCN"):
+                kn["initial_point"] = float(kn["initial_point"][0])       # a plain number, as in the library's own tests
         strat[b] = getattr(M, st["kind"])(**kn)
     g = M.HybridGibbs(J, strat, dict(sc["steps"]) if sc.get("steps") else None)
     return g, J
